@@ -191,6 +191,7 @@ type evCtx struct {
 	rs      *regState
 	removed *opRec
 	raced   *opRec // the operator whose finished step was checked concurrently in this event
+	looked  *opRec // the operator an outside reader looked at in this event
 	judges  []*judge
 	msgs    map[*regState][]inMsg
 }
@@ -403,6 +404,8 @@ func (w *world) event(op Op) error {
 		w.class("event:clock+" + d.String())
 	case "influence":
 		err = w.evInfluence()
+	case "observer":
+		w.evObserver(ev, rs, op.Which, op.N)
 	case "foreign":
 		w.evForeign(rs, op.F)
 	default:
@@ -634,6 +637,53 @@ func (w *world) evRemove(ev *evCtx, rs *regState, which int) error {
 	}
 	w.class("event:remove-running")
 	return nil
+}
+
+// evObserver: somebody outside the controller looks at an operator the controller knows (running, or
+// waiting), through the methods the real readers use: the hot-region scheduler's pending-influence
+// bookkeeping (CheckExpired() || CheckTimeout()), HTTP listings and log lines (String, which runs
+// CheckSuccess and CheckTimeout), CheckTimeout / CheckSuccess / Status alone. Looking may move the status
+// along a legal timed edge only (created->expired after the expire time, started->timeout after the wait
+// time); the sweep that follows every event judges that.
+func (w *world) evObserver(ev *evCtx, rs *regState, which, call int) {
+	var cand []*opRec
+	if o := w.runningRec(rs); o != nil {
+		cand = append(cand, o)
+	}
+	waiting := map[*operator.Operator]bool{}
+	for _, x := range w.oc.GetWaitingOperators() {
+		waiting[x] = true
+	}
+	for _, o := range w.ops {
+		if waiting[o.op] {
+			cand = append(cand, o)
+		}
+	}
+	if len(cand) == 0 {
+		return
+	}
+	o := cand[mod(which, len(cand))]
+	ev.looked = o
+	switch mod(call, 6) {
+	case 0:
+		_ = o.op.CheckExpired() || o.op.CheckTimeout()
+		w.class("observer:CheckExpired||CheckTimeout")
+	case 1:
+		_ = o.op.CheckTimeout()
+		w.class("observer:CheckTimeout")
+	case 2:
+		_ = o.op.CheckSuccess()
+		w.class("observer:CheckSuccess")
+	case 3:
+		_ = o.op.String()
+		w.class("observer:String")
+	case 4:
+		_ = o.op.Status()
+		w.class("observer:Status")
+	case 5:
+		_ = o.op.CheckExpired()
+		w.class("observer:CheckExpired")
+	}
 }
 
 // evInfluence: what every scheduler tick does. GetOpInfluence runs CheckTimeout on
@@ -1411,8 +1461,8 @@ func (w *world) sweep(ev *evCtx) error {
 			if o.last == operator.CREATED && o.op.HasStarted() {
 				startedNow[o.rs] = append(startedNow[o.rs], o)
 			}
-			if operator.IsEndStatus(cur) && !running {
-				endedNow[o.rs] = append(endedNow[o.rs], o)
+			if operator.IsEndStatus(cur) && !running && !(ev.looked == o && ev.kind == "observer") {
+				endedNow[o.rs] = append(endedNow[o.rs], o) // (a waiting operator that expires while an observer looks at it is buried when its turn comes)
 			}
 		}
 		if o.running && !running {
